@@ -28,7 +28,7 @@ def random_ops(rng, n):
         elif r == 3:
             ops.append({"op": "pdo_stop"})
         elif r == 12:
-            ops.append({"op": "pdo_cob", "id": rng.choice([0x181, 0x281, 0x1ABCDE, rng.randrange(1, 0x800)])})
+            ops.append({"op": "pdo_cob", "id": rng.choice([0x181, 0x281, 0x1ABCDE, 0x7FF, 0x800, 0xFFF, 0x1000, rng.randrange(1, 0x800), rng.randrange(0x800, 0x2000)])})
             if rng.random() < 0.7:      # restart with the same period
                 ops.append({"op": "pdo_start", "period_us": rng.choice([0, 10000, 250000])})
         elif r == 4:
